@@ -231,11 +231,14 @@ func (f *readFile) transmittable(rawLine *bytes.Buffer, length, capacity int,
 	// Can we actually send more messages, channel capacity reached?
 	if f.canSkipLines && length >= capacity {
 		f.updateLineNotTransmitted()
+		f.dropped = true
 		return newLine, false
 	}
 	f.updateLineTransmitted()
+	transmittedPerc := f.transmittedPerc()
+	f.dropped = false
 
-	return line.New(rawLine, f.totalLineCount(), f.transmittedPerc(), f.globID), true
+	return line.New(rawLine, f.totalLineCount(), transmittedPerc, f.globID), true
 }
 
 // The regex has to be matched against the line's content, but not against the newline
